@@ -708,7 +708,7 @@ fn random_text(rng: &mut Rng) -> String {
     };
     // line-break density varies per text
     let nl = [2u32, 6, 12, 25][rng.below(4)];
-    let w = [30, 6, 4, 4, 4, nl, nl / 2 + 1, 3, 5];
+    let w = [30, 6, 4, 4, 4, nl, nl / 2 + 1, 3, 5, 3];
     let mut s = String::new();
     let mut chars = 0;
     while chars < n {
@@ -724,7 +724,9 @@ fn random_text(rng: &mut Rng) -> String {
                 chars += 1;
             }
             7 => s.push('\r'),
-            _ => s.push('\t'),
+            8 => s.push('\t'),
+            // any other control / separator character: none of them is a line break for pest
+            _ => s.push(*rng.pick(&['\u{b}', '\u{c}', '\u{1}', '\u{0}', '\u{7f}', '\u{1b}', '\u{85}', '\u{2028}', '\u{2029}', '\u{a0}', '\u{feff}', 'Ａ'])),
         }
         chars += 1;
     }
@@ -765,6 +767,77 @@ fn random_case(ctx: &mut Ctx, rep: &mut Report, rng: &mut Rng, text: &str) {
             p.swap(2, 3);
         }
         ctx.merge(rep, &or, (p[0], p[1]), (p[2], p[3]));
+    }
+}
+
+/// One parse result with many pairs on many lines, looked at in arbitrary order: all pairs of a
+/// `Pairs` share one line index, so whatever that index remembers between lookups must not matter.
+fn shared_index_case(rep: &mut Report, rng: &mut Rng, text: &str) {
+    let bounds: Vec<usize> = (0..=text.len()).filter(|o| text.is_char_boundary(*o)).collect();
+    if bounds.len() < 3 {
+        return;
+    }
+    let n = 4 + rng.below(28);
+    let mut spans: Vec<(usize, usize)> = (0..n)
+        .map(|_| {
+            let x = *rng.pick(&bounds);
+            let y = *rng.pick(&bounds);
+            (x.min(y), x.max(y))
+        })
+        .collect();
+    // top-level leaves; in document order mostly, sometimes in the order they were drawn
+    let in_order = rng.chance(3, 4);
+    if in_order {
+        spans.sort();
+    }
+    let text2 = text.to_string();
+    let spans2 = spans.clone();
+    let mut order: Vec<usize> = (0..n).collect();
+    match rng.below(4) {
+        0 => order.reverse(),
+        1 => {}
+        _ => {
+            for i in (1..n).rev() {
+                let j = rng.below(i + 1);
+                order.swap(i, j);
+            }
+        }
+    }
+    let order2 = order.clone();
+    let r = std::panic::catch_unwind(move || {
+        let mut b = PairsBuilder::new(&text2);
+        for (x, y) in &spans2 {
+            b = b.rule(R::inner, *x, *y);
+        }
+        let pairs: Vec<_> = b.build().collect();
+        let mut got = vec![];
+        for i in &order2 {
+            got.push((*i, pairs[*i].line_col(), pairs[*i].as_span().start()));
+        }
+        // a second pass in document order over the same shared index
+        for (i, p) in pairs.iter().enumerate() {
+            got.push((i, p.line_col(), p.as_span().start()));
+        }
+        got
+    });
+    rep.count("evaluations");
+    rep.count("shared_index_cases");
+    let witness = |observed: Value| {
+        json!({"property":"C10","check":"Pair::line_col over one shared line index, lookups in arbitrary order","text":text,"spans":spans,
+            "lookup_order":order,"leaves_in_document_order":in_order,"a":0,"b":0,"expected":"1 + newlines before the start / 1 + chars since the last newline, for every pair, whatever was looked at before","observed":observed})
+    };
+    match r {
+        Err(p) => rep.violation(witness(json!({"panic": vmon::pestrun::panic_message(&p)}))),
+        Ok(got) => {
+            for (i, lc, start) in got {
+                rep.count("shared_index_lookups");
+                let want = naive_line_col(text, spans[i].0);
+                if lc != want || start != spans[i].0 {
+                    rep.violation(witness(json!({"pair": i, "start": start, "line_col": [lc.0, lc.1], "naive": [want.0, want.1]})));
+                    return;
+                }
+            }
+        }
     }
 }
 
@@ -842,6 +915,12 @@ pub fn run(args: &Args) {
         rep.count("random_texts");
         register(&mut rep, &text, "random");
         random_case(&mut ctx, &mut rep, &mut r, &text);
+        shared_index_case(&mut rep, &mut r, &text);
+        if i % 4 == 0 {
+            // many short lines: lookups that jump far in line numbers
+            let many: String = (0..10 + r.below(40)).map(|k| format!("{}{}", ["a", "é", "", "🎈b"][k % 4], if r.chance(1, 5) { "\r\n" } else { "\n" })).collect();
+            shared_index_case(&mut rep, &mut r, &many);
+        }
     }
     finish(ctx, rep, args);
 }
